@@ -105,4 +105,4 @@ package gorp
 //@   loop 1 invariant forall k K :: __in(result, k) == ((inKeys(committedKeys, k) && !(__in(d.state, k) && (d.state[k].deleted || !inVals(values, d.state[k].value)))) || (exists j int :: 0 <= j && j < __ri(0) && inF(d, values[j], k)))
 //@   loop 2 modifies result
 //@   loop 2 invariant result != nil
-//@   loop 2 invariant forall k K :: __in(result, k) == ((inKeys(committedKeys, k) && !(__in(d.state, k) && (d.state[k].deleted || !inVals(values, d.state[k].value)))) || (exists j int :: 0 <= j && j < __ri(1) && inF(d, values[j], k)) || __seen(k))
+//@   loop 2 invariant forall k K :: __in(result, k) == ((inKeys(committedKeys, k) && !(__in(d.state, k) && (d.state[k].deleted || !inVals(values, d.state[k].value)))) || (exists j int :: 0 <= j && j < __ri(0) && inF(d, values[j], k)) || __seen(k))
